@@ -213,7 +213,7 @@ def run_one(spec: dict) -> dict:
         _tracer.uninstall()
         _tracer = None
     if spec.get("line"):
-        _tracer = LineTracer(sched, [cfgmod, models_mod])
+        _tracer = LineTracer(sched, [cfgmod, models_mod], granularity=spec.get("gran", "line"))
         _tracer.install()
     try:
         sched.run()
@@ -332,7 +332,8 @@ def gen(seed) -> dict:
         threads.append(prog)
     return {
         "seed": seed, "pre_env": ({ENVVAR: pre} if pre else {}), "hash_seed": g.choice([0, 1]), "threads": threads, "operator": operator,
-        "sched": g.choice(["random", "sticky", "pct1", "pct2", "pct3"]), "line": g.random() < 0.7,
+        "sched": g.choice(["random", "sticky", "pct1", "pct2", "pct3", "retbias"]), "line": g.random() < 0.7,
+        "gran": g.choice(["line", "line", "line", "line", "line", "instr"]),
     }
 
 
@@ -359,7 +360,7 @@ def search(pool, tier: str, seed: int, deadline: float, agg: Agg) -> None:
     search.refs = refs
     master = stream(seed, "c14-plan")
     specs = sweep()
-    n = {"quick": 2600, "thorough": 40000}[tier]
+    n = {"quick": 2000, "thorough": 40000}[tier]
     specs += [gen(master.randrange(2 ** 48)) for _ in range(n)]
     # group by zygote key, blocks of 4
     by = {}
